@@ -29,8 +29,10 @@ How it works
   * "success" needs `VERIFICATION:- SUCCESSFUL`, zero failed checks, no check with an
     undetermined / error status, and ALL cover properties SATISFIED.  A timeout, an
     out-of-memory abort, a missing result file or a build error is never a success.
-  * harnesses that fail are re-run one by one with
-    `-Z concrete-playback --concrete-playback=print` to get concrete values.
+  * harnesses that fail (at most MAX_PLAYBACK = 8 of them; `playback=N` / `--playback=N`,
+    `--no-playback`) are re-run with `-Z concrete-playback --concrete-playback=print`
+    and the printed unit tests of the FAILED checks (concrete values of every kani::any()
+    in program order) are attached as "counterexample".
   * tier "thorough" builds the crate with `--features thorough` (larger bounds where a
     harness has bounds at all) and uses the longer timeout.
 
@@ -59,6 +61,8 @@ TIERS = {
 MEM_CAP_BYTES = 12 * 1024 ** 3          # RLIMIT_AS per process (cbmc, kani-compiler, ...)
 BUILD_ALLOWANCE_S = 600                  # first build of rbpf + harness crate is ~40 s
 ALLOWED_NAME = re.compile(r"^c(17|19)_")
+MAX_PLAYBACK = 8                         # failing harnesses re-run for concrete values
+MAX_TESTS_PER_HARNESS = 2                # printed playback tests kept per harness
 
 
 # ----------------------------------------------------------------------------------------
@@ -120,6 +124,7 @@ def _parse_result(text):
          "failed_checks": [], "verdict": None, "seconds": None, "timed_out": False,
          "undetermined": 0}
     body = text.split("\nSUMMARY:")[0]
+    undet = []
     for block in _CHECK_SPLIT_RE.split(body)[1:]:
         prop = block.split("\n", 1)[0].strip()
         m = re.search(r"^\t - Status: (\S+)", block, re.M)
@@ -147,7 +152,16 @@ def _parse_result(text):
             elif status not in ("SUCCESS", "UNREACHABLE"):
                 # UNDETERMINED, ERROR, MISSING ...: not a proof
                 r["undetermined"] += 1
-                r["failed_checks"].append("%s: %s%s" % (status, desc, where))
+                undet.append("%s: %s%s" % (status, desc, where))
+    if undet:
+        # Kani marks every other check UNDETERMINED once one check fails: summarise then
+        if r["checks_failed"] > 0:
+            r["failed_checks"].append("(+ %d checks UNDETERMINED as a consequence)"
+                                      % len(undet))
+        else:
+            r["failed_checks"] += undet[:10]
+            if len(undet) > 10:
+                r["failed_checks"].append("(+ %d more not SUCCESS)" % (len(undet) - 10))
     # cross-check with the summary lines
     m = re.search(r"\*\* (\d+) of (\d+) failed", text)
     if m:
@@ -188,6 +202,7 @@ def _classify(p):
         ok = (p["checks_failed"] == 0 and p["undetermined"] == 0
               and p["covers_satisfied"] == p["covers_total"]
               and p["checks_total"] > 0
+              and p["covers_total"] > 0          # every harness must carry a witness
               and p.get("summary_failed", 0) == 0
               and p.get("summary_cov_sat", p["covers_satisfied"])
               == p.get("summary_cov_total", p["covers_total"])
@@ -238,6 +253,20 @@ def _run_proc(cmd, cwd, timeout):
         return None, out, time.time() - t0
 
 
+def _prune_target(target_dir, limit_bytes=2 * 1024 ** 3):
+    """every distinct harness selection leaves an artifact directory (up to ~40 MB) behind;
+    start from scratch (one ~40 s rebuild) when the target dir has grown beyond 2 GB"""
+    total = 0
+    for root, _dirs, files in os.walk(target_dir):
+        for f in files:
+            try:
+                total += os.lstat(os.path.join(root, f)).st_size
+            except OSError:
+                pass
+    if total > limit_bytes:
+        shutil.rmtree(target_dir, ignore_errors=True)
+
+
 def _strip_noise(out):
     """drop the `register_tool` warnings that kani's rustc prints for every crate"""
     keep = []
@@ -263,11 +292,37 @@ def _playback(full_name, crate_dir, target_dir, features, timeout):
     rc, out, _ = _run_proc(cmd, crate_dir, timeout)
     if rc is None:
         return None
-    m = re.search(r"(Concrete playback unit test for.*?\n```\n.*?\n```)", out, re.S)
-    if m:
-        return m.group(1)
-    m = re.search(r"(#\[test\]\s*\n\s*fn kani_concrete_playback.*?\n\})", out, re.S)
-    return m.group(1) if m else None
+    # one test is printed per failed check AND per satisfied cover: keep the failed checks
+    tests = re.findall(r"Concrete playback unit test for [^\n]*\n```\n(.*?)\n```", out, re.S)
+    failing = [t for t in tests if "/// Check for `cover`" not in t
+               and "`%s`" % full_name in t]
+    if not failing:
+        return None
+    return "\n\n".join(failing[:MAX_TESTS_PER_HARNESS])
+
+
+def _playback_all(names, crate_dir, target_dir, features, timeout, jobs):
+    """{name: text}. concrete playback cannot be combined with -j, and costs ~4x the plain
+    run, so: the first harness alone (it also (re)builds if needed), then the others as
+    parallel processes (their cargo build step is a no-op; cbmc runs outside the lock)."""
+    from concurrent.futures import ThreadPoolExecutor
+    res = {}
+    if not names:
+        return res
+
+    def one(n):
+        try:
+            return n, _playback(n, crate_dir, target_dir, features, timeout)
+        except Exception as e:          # never let diagnostics mask the verdict
+            return n, "playback failed: %r" % (e,)
+
+    n, t = one(names[0])
+    res[n] = t
+    if len(names) > 1:
+        with ThreadPoolExecutor(max_workers=max(1, jobs)) as ex:
+            for n, t in ex.map(one, names[1:]):
+                res[n] = t
+    return res
 
 
 # ----------------------------------------------------------------------------------------
@@ -305,6 +360,7 @@ def run(harness_prefixes, tier="quick", crate_dir=KANI_DIR, repo_dir=REPO_DIR,
         return result
 
     # 3. one cargo-kani process: build once, verify in parallel, one result file each
+    _prune_target(target_dir)
     os.makedirs(target_dir, exist_ok=True)
     out_dir = os.path.join(target_dir, "result_output_dir")
     shutil.rmtree(out_dir, ignore_errors=True)
@@ -358,23 +414,28 @@ def run(harness_prefixes, tier="quick", crate_dir=KANI_DIR, repo_dir=REPO_DIR,
                 h["failed_checks"].append("no verdict / CBMC failed (crash or memory cap "
                                           "%d GB): %s" % (MEM_CAP_BYTES >> 30,
                                                           " | ".join(tail)))
+            if h["status"] == "failure" and p["verdict"] == "SUCCESSFUL" \
+                    and p["covers_total"] == 0:
+                h["failed_checks"].append("harness has no kani::cover! reachability "
+                                          "witness")
             if any("unwinding assertion" in d for d in h["failed_checks"]):
                 h["failed_checks"].append(
                     "note: unwinding assertion failed, the unwind bound %r is too small "
                     "(not a property violation by itself)" % (unwind,))
         result["harnesses"].append(h)
 
-    # 5. concrete values for failures
+    # 5. concrete values for failures (bounded: at most MAX_PLAYBACK harnesses)
     if playback:
-        for h in result["harnesses"]:
-            if h["status"] == "failure" and h["checks_failed"] > 0:
-                try:
-                    cex = _playback(h["name"], crate_dir, target_dir, features,
-                                    per_timeout + 120)
-                except Exception as e:      # never let diagnostics mask the verdict
-                    cex = "playback failed: %r" % (e,)
-                if cex:
-                    h["counterexample"] = cex
+        failed = [h for h in result["harnesses"]
+                  if h["status"] == "failure" and h["checks_failed"] > 0]
+        limit = MAX_PLAYBACK if playback is True else int(playback)
+        todo = [h["name"] for h in failed[:limit]]
+        cex = _playback_all(todo, crate_dir, target_dir, features, per_timeout + 120, jobs)
+        for h in failed:
+            if cex.get(h["name"]):
+                h["counterexample"] = cex[h["name"]]
+        if len(failed) > limit:
+            result["playback_skipped"] = [h["name"] for h in failed[limit:]]
 
     result["ok"] = ("error" not in result
                     and all(h["status"] == "success" for h in result["harnesses"]))
@@ -410,6 +471,8 @@ def _main(argv):
             kw["jobs"] = int(f.split("=", 1)[1])
         elif f == "--no-playback":
             kw["playback"] = False
+        elif f.startswith("--playback="):
+            kw["playback"] = int(f.split("=", 1)[1])
     res = run(prefixes, tier, **kw)
     if "--json" in flags:
         json.dump(res, sys.stdout, indent=1)
